@@ -121,9 +121,14 @@ def sequence(ctx, seed):
                 kind = 'ok'
                 retry = None
             if kind == 'invalid-data':
-                sh = [s for el in comp['elements'].values() for s in el.get('electron_shells', [])]
-                if sh:
-                    sh[0]['exponents'][0] = '-' + sh[0]['exponents'][0].strip()
+                # one rule of the validator broken (the catalogue of C18: zero / negative / repeated exponent, short row,
+                # zero column, unused primitive, duplicate column, missing key, ...)
+                from . import c18
+                muts = [c18.m_negative_exp, c18.m_zero_exp, c18.m_dup_exp, c18.m_short_row, c18.m_zero_column, c18.m_unused_primitive,
+                        c18.m_dup_column, c18.m_missing_key, c18.m_am_negative, c18.m_bad_function_type, c18.m_empty_exponents]
+                rng.shuffle(muts)
+                if not any(m(comp, rng) for m in muts):
+                    kind = 'ok'
             elif kind == 'invalid-role':
                 role = 'principal'
             elif kind == 'invalid-family':
